@@ -38,6 +38,35 @@ def search(tier, seed):
                 C.show_input(h, 400), impl[:400], verdict[:600]), samples, positions
     if rows:
         samples.append("literal: %s -> %s" % (C.show_input(rows[0][0], 100), rows[0][1][:80]))
+    # responses read off the translated grammar: every quoted string that may also be sent as a literal is sent as one
+    # whose content looks like protocol syntax; the response must then end exactly where it ends
+    sents = C.grammar_sentences()
+    if sents:
+        q = "224122"  # "A"
+        plain = "7b317d0d0a41"  # {1} CR LF A
+        cand = []
+        for h in sents:
+            k = h.find(q)
+            while k >= 0:
+                if k % 2 == 0:
+                    cand.append((h, k))
+                k = h.find(q, k + 2)
+        res = C.parse_stream("corpus", seed, 0, stdin="\n".join(h[:k] + plain + h[k + 6:] for h, k in cand) + "\n") if cand else []
+        cases = []
+        for (h, k), (hp, impl, _) in zip(cand, res):
+            if impl.startswith("OK %d " % (len(hp) // 2)):
+                for content in (b")\r\n", b"{5}\r\n", b"\"", b"\\", b"A0001 OK done\r\n", b"(\r\n* 1 EXISTS\r\n"):
+                    cases.append((h[:k] + (b"{%d}\r\n" % len(content) + content).hex() + h[k + 6:], h, content))
+        if cases:
+            out = C.parse_stream("corpus", seed, 0, stdin="\n".join(c[0] for c in cases) + "\n")
+            for (hc, h0, content), (_, got, _) in zip(cases, out):
+                total += 1
+                positions += 1
+                v = got.split(" ", 1)[0]
+                if v == "INC" or v == "PANIC" or (v == "OK" and int(got.split(" ")[1]) != len(hc) // 2):
+                    return total, "the content of a literal was read as protocol syntax: the response %s with the literal content %r in place of \"A\" is answered %s (it is complete, %d bytes):\ninput %s" % (
+                        C.show_input(h0), content, got[:80], len(hc) // 2, C.show_input(hc, 400)), samples, positions
+            samples.append("grammar sentences: %d literal positions x 6 hostile contents" % (len(cases) // 6))
     # through the codec: literal look-alikes under arbitrary chunking (the C04 streams put `{4096}CRLF`, `{99999}CRLF`,
     # `)CRLF A0001 OK` inside literal contents and cut right after them)
     frows = L.run_stream("framed", seed, 25 if tier == "quick" else 400)
